@@ -111,6 +111,10 @@ def check_case(ctx, cs):
         ok, r = _try(ctx, site, tg + ctag, small, lambda: obj.evaluate_single(arg(p)))
         if ok and not close_seq(r, exp):
             ctx.violate(site, tg + ctag, small, {"expected": fl(exp), "got": r})
+        # the list entry point: every parameter of the list is inside the domain of this configuration, none may be dropped
+        ok, r = _try(ctx, site.replace("evaluate_single", "evaluate_list"), tg + ctag, small, lambda: obj.evaluate_list([arg(p), arg(p)]))
+        if ok and not close_seq([list(x) for x in r], [exp, exp]):
+            ctx.violate(site.replace("evaluate_single", "evaluate_list"), tg + ctag, small, {"expected_points": 2, "got_points": len(r), "got": r[:1]})
         # sampled grid under this configuration: same points
         if p is prm and pd <= 2:
             def grid():
